@@ -155,6 +155,11 @@ def run(chk, tier, pid, explicit=None):
         # the cfg(windows) thread-based communicator, same properties, its own model (Lib/WinComm.v)
         import wincomm
         wincomm.run_part(chk, pid, tier)
+    if pid == "C01" and explicit is None:
+        # the same exchange with real processes and real pipes (capture / communicate of commands and pipelines):
+        # the kernel model's assumption that a pipe end is held only by the processes it was wired to
+        import pipeprops
+        pipeprops.c01_real(chk, tier)
     nontrivial = set()
     for s, f in stats["facts"]:
         if s["kind"] == "comm":
@@ -188,6 +193,12 @@ def replay(chk, path, pid):
         chk.obligations(C.props_check(pid, DEPS[pid]))
         C.build_harness()
         wincomm.replay(chk, "\n".join(lines[1:]), pid)
+        return
+    if lines and lines[0].strip() == "real":
+        import pipeprops
+        chk.obligations(C.props_check(pid, DEPS[pid]))
+        C.build_harness()
+        pipeprops.c01_real(chk, "quick", explicit=[pipeprops.tpl_from_json(lines[1])])
         return
     scns = load_scn_file(path)
     run(chk, "quick", pid, explicit=scns)
